@@ -246,6 +246,19 @@ def _inline_in(fn, owner, modname, new_helpers, log, q):
                                     continue
                                 expr = _single_expr(h2, c, is_m, static)
                                 if expr is None:
+                                    # multi-statement helper called inside a simple statement: hoist the call into a
+                                    # temporary first (`t = helper(...)`), the statement-level inliner then takes over
+                                    if isinstance(st, (ast.Expr, ast.Assign, ast.AugAssign, ast.Return)) and _unconditional(st, c) \
+                                            and not getattr(st, '_hoisted', False):
+                                        tmp = f'_hoisted_{h2.name.strip("_")}'
+                                        hoist = ast.Assign(targets=[ast.Name(id=tmp, ctx=ast.Store())], value=c)
+                                        if isinstance(val, list):
+                                            val[k] = ast.Name(id=tmp, ctx=ast.Load())
+                                        else:
+                                            setattr(node, f2, ast.Name(id=tmp, ctx=ast.Load()))
+                                        blk.insert(i, hoist)
+                                        ast.fix_missing_locations(fn)
+                                        return True
                                     continue
                                 if isinstance(val, list):
                                     val[k] = expr
@@ -257,6 +270,24 @@ def _inline_in(fn, owner, modname, new_helpers, log, q):
     if changed:
         ast.fix_missing_locations(fn)
     return changed
+
+
+def _unconditional(st, call):
+    """Is `call` evaluated exactly once, unconditionally, when the simple statement st runs?"""
+    path = []
+
+    def find(n):
+        if n is call:
+            return True
+        for c in ast.iter_child_nodes(n):
+            if find(c):
+                path.append(n)
+                return True
+        return False
+    if not find(st):
+        return False
+    return not any(isinstance(p, (ast.IfExp, ast.BoolOp, ast.Lambda, ast.ListComp, ast.SetComp, ast.DictComp, ast.GeneratorExp,
+                                  ast.Compare)) for p in path)
 
 
 def _single_expr(h, call, is_m, static):
@@ -407,4 +438,79 @@ def apply(tree, modname):
         return log
     inline_helpers(tree, modname, ref_functions, log)
     inline_temporaries(tree, modname, table, log)
+    canonical_shapes(tree, modname)
     return log
+
+
+def canonical_shapes(tree, modname):
+    """Shape canonicalisations applied to every tree (reference and current alike); not logged as refactor reversals."""
+    loops_to_comprehensions(tree, [], modname)
+
+
+# ---------------------------------------------------------------------------
+# append loops -> comprehensions (one canonical form for "build a list element by element")
+# ---------------------------------------------------------------------------
+
+def _append_call(st, name):
+    return isinstance(st, ast.Expr) and isinstance(st.value, ast.Call) and isinstance(st.value.func, ast.Attribute) \
+        and st.value.func.attr == 'append' and isinstance(st.value.func.value, ast.Name) and st.value.func.value.id == name \
+        and len(st.value.args) == 1 and not st.value.keywords
+
+
+def _loop_to_elt(body, name):
+    """(element expression, filter or None) of a loop body that only computes temporaries and appends once per iteration."""
+    temps = {}
+    for k, st in enumerate(body):
+        if isinstance(st, ast.Assign) and len(st.targets) == 1 and isinstance(st.targets[0], ast.Name) \
+                and st.targets[0].id not in temps and st.targets[0].id != name:
+            temps[st.targets[0].id] = _Subst(dict(temps)).visit(_clone(st.value))
+            continue
+        rest = body[k:]
+        sub = _Subst(dict(temps))
+        if len(rest) == 1 and _append_call(rest[0], name):
+            return sub.visit(_clone(rest[0].value.args[0])), None
+        if len(rest) == 1 and isinstance(rest[0], ast.If):
+            i_ = rest[0]
+            if len(i_.body) == 1 and _append_call(i_.body[0], name):
+                if not i_.orelse:
+                    return sub.visit(_clone(i_.body[0].value.args[0])), sub.visit(_clone(i_.test))
+                if len(i_.orelse) == 1 and _append_call(i_.orelse[0], name):
+                    return ast.IfExp(test=sub.visit(_clone(i_.test)), body=sub.visit(_clone(i_.body[0].value.args[0])),
+                                     orelse=sub.visit(_clone(i_.orelse[0].value.args[0]))), None
+        # if C: L.append(X); continue  ...  L.append(Y)
+        if len(rest) >= 2 and isinstance(rest[0], ast.If) and not rest[0].orelse and len(rest[0].body) == 2 \
+                and _append_call(rest[0].body[0], name) and isinstance(rest[0].body[1], ast.Continue):
+            tail = _loop_to_elt(rest[1:], name)
+            if tail is not None and tail[1] is None:
+                return ast.IfExp(test=sub.visit(_clone(rest[0].test)), body=sub.visit(_clone(rest[0].body[0].value.args[0])),
+                                 orelse=sub.visit(tail[0])), None
+        return None
+    return None
+
+
+def loops_to_comprehensions(tree, log, modname):
+    for q, fn in canon._functions(tree, modname):
+        for parent in ast.walk(fn):
+            for fld in ('body', 'orelse', 'finalbody'):
+                blk = getattr(parent, fld, None)
+                if not isinstance(blk, list) or len(blk) < 2:
+                    continue
+                i = 0
+                while i < len(blk) - 1:
+                    a, b = blk[i], blk[i + 1]
+                    if isinstance(a, ast.Assign) and len(a.targets) == 1 and isinstance(a.targets[0], ast.Name) \
+                            and isinstance(a.value, ast.List) and not a.value.elts and isinstance(b, ast.For) and not b.orelse:
+                        name = a.targets[0].id
+                        uses_in_loop = [x for x in ast.walk(b) if isinstance(x, ast.Name) and x.id == name]
+                        r = _loop_to_elt(b.body, name)
+                        if r is not None and len(uses_in_loop) == sum(1 for x in ast.walk(b) if isinstance(x, ast.Call)
+                                                                       and isinstance(x.func, ast.Attribute) and x.func.attr == 'append'
+                                                                       and isinstance(x.func.value, ast.Name) and x.func.value.id == name):
+                            elt, flt = r
+                            comp = ast.ListComp(elt=elt, generators=[ast.comprehension(target=_clone(b.target), iter=_clone(b.iter),
+                                                                                        ifs=[flt] if flt is not None else [], is_async=0)])
+                            blk[i:i + 2] = [ast.Assign(targets=[ast.Name(id=name, ctx=ast.Store())], value=comp)]
+                            ast.fix_missing_locations(fn)
+                            log.append(('loop-to-comprehension', q, name))
+                            continue
+                    i += 1
